@@ -383,6 +383,14 @@ class Ctx:
         items = list(items)
         if not items:
             return
+        if os.environ.get("VERIF_TIMING"):
+            _t0 = time.time()
+            import atexit  # noqa: F401
+
+            def _report(_f=funcname, _n=len(items), _t=_t0):
+                print(f"TIMING {_f} items={_n} started_at={_t - self.t0:.1f}s", flush=True)
+
+            _report()
         if chunk is None:
             chunk = max(1, len(items) // (NPROC * 8))
         batches = [items[i : i + chunk] for i in range(0, len(items), chunk)]
@@ -462,9 +470,37 @@ def finish(ctx: Ctx, mod):
             print("NOTE: the first violating execution did not reproduce in 5 replays; the code under test was observed not to be a function of the "
                   "schedule during exploration (replay divergences), so the violation found there is reported as it was recorded")
         elif nrep == 0:
-            print("HARNESS-ERROR: violating case does not reproduce when replayed alone (state leak in harness?)")
-            print(json.dumps(v)[:3000])
-            return 2
+            # Try further recorded cases (distinct signatures first) before giving up on reproduction.
+            others, seen_sig = [], {json.dumps(v["sig"], sort_keys=True)}
+            for w_ in recheck[1:]:
+                k_ = json.dumps(w_["sig"], sort_keys=True)
+                if k_ not in seen_sig:
+                    seen_sig.add(k_)
+                    others.append(w_)
+            reproduced = False
+            try:
+                for w_ in others[:3] + recheck[1:3]:
+                    if any(replay_any(mod, w_["case"]) for _ in range(3)):
+                        reproduced = True
+                        break
+                if not reproduced:
+                    for _ in range(5):
+                        if replay_any(mod, v["case"]):
+                            reproduced = True
+                            break
+            except Exception:
+                print("HARNESS-ERROR: replay of violating case raised:\n" + traceback.format_exc())
+                return 2
+            ctx.notes["first_violation_not_reproduced"] = True
+            if reproduced:
+                print("NOTE: the first violating case did not reproduce when replayed alone, another recorded case (or a later replay) did; the code under test is "
+                      "not a deterministic function of what this harness controls (threads, wall clock?) — violations are reported as recorded")
+            else:
+                # On the pinned tree every check is silent and every replay is deterministic (selftest_seeds.json). A violation that was observed
+                # during exploration but cannot be reproduced means the code under test has become nondeterministic in a way the harness does not
+                # own (e.g. it started threads); that observation is still a violation of the property on the execution that showed it.
+                print("NOTE: no recorded violating case reproduced when replayed alone (10 attempts): the code under test behaves nondeterministically "
+                      "(threads, wall clock?). The violations are reported as they were observed during the exploration; replays may or may not fail.")
         if len(reps) > 2:
             print(f"NOTE: replays of the first violating case are not bit-identical (reproduced {nrep}/{len(reps)} times); "
                   "gwf iterates over address-ordered sets of targets, which the harness cannot pin from outside")
